@@ -446,8 +446,29 @@ class Effects:
                 for d in n["decls"]:
                     locals_.add(d["id"])
 
-        def add(rd):
+        # locals that point into something longer-lived: iterators / references / pointers initialised from an expression rooted
+        # at a field, a parameter or another such local (auto it = table_.find(k); auto& row = table_[k];)
+        into = {}
+        for n in walk(fn.body):
+            if n["k"] == "DeclStmt":
+                for d in n["decls"]:
+                    ty = d.get("ty") or ""
+                    if d.get("init") is not None and ("iterator" in ty or ty.endswith("&") or ty.endswith("*")) and not ty.startswith("const ") and "const_iterator" not in ty:
+                        r0 = _root_decl(d["init"])
+                        if r0 is not None and not (r0[0] == "v" and r0[1] == d["id"]):
+                            into[d["id"]] = r0
+            elif is_call(n) and n["callee"]["name"] == "operator=" and "obj" in n and n.get("args"):
+                o = strip(fn.obj(n))
+                if o is not None and o["k"] == "DeclRefExpr" and "iterator" in (o["decl"].get("ty") or "") and "const_iterator" not in (o["decl"].get("ty") or ""):
+                    r0 = _root_decl(fn.args(n)[0])
+                    if r0 is not None and o["decl"]["id"] not in into and not (r0[0] == "v" and r0[1] == o["decl"]["id"]):
+                        into[o["decl"]["id"]] = r0
+
+        def add(rd, depth_=0):
             if rd is None:
+                return
+            if rd[0] == "v" and rd[1] in into and depth_ < 4:
+                add(into[rd[1]], depth_ + 1)
                 return
             if rd[0] == "v":
                 if rd[1] in pidx:
@@ -520,13 +541,13 @@ def _path_feasible(fn, cfg, path):
                 continue
             if n["k"] == "DeclStmt":
                 for d in n["decls"]:
-                    if d.get("ty") == "bool" and d.get("init") is not None and strip(d["init"])["k"] == "CXXBoolLiteralExpr":
+                    if d.get("ty") in ("bool", "const bool") and d.get("init") is not None and strip(d["init"])["k"] == "CXXBoolLiteralExpr":
                         env[d["id"]] = bool(strip(d["init"])["val"])
                     elif d.get("init") is not None and (d.get("ty") or "").startswith("const ") and any(is_call(x) and x["callee"].get("const") for x in walk(d["init"])):
                         snap[d["id"]] = render(d["init"])
             elif n["k"] == "BinaryOperator" and n["op"] == "=":
                 l = strip(kids(n)[0])
-                if l["k"] == "DeclRefExpr" and l["decl"].get("ty") == "bool":
+                if l["k"] == "DeclRefExpr" and l["decl"].get("ty") in ("bool", "const bool"):
                     r = strip(kids(n)[1])
                     if r["k"] == "CXXBoolLiteralExpr":
                         env[l["decl"]["id"]] = bool(r["val"])
@@ -574,3 +595,62 @@ def stuck_cycle(fn, cfg, head, body, eff):
                     return
     dfs(head, [head], {head})
     return found[0] if found else None
+
+
+def lift_to_call_sites(f, n):
+    """a node written inside the body of a local lambda (auto L = [..]{ ... n ... };) executes where L is invoked: the
+    operator() calls on L elsewhere in the function; a node outside any lambda is returned as it is.  None when the node sits in
+    a lambda that is not bound to a local (passed straight to an algorithm): the caller decides"""
+    lam = f.enclosing(n, ("LambdaExpr",))
+    if lam is None:
+        return [n]
+    decl = None
+    for d in f.all_nodes():
+        if d["k"] == "DeclStmt":
+            for x in d["decls"]:
+                if x.get("init") is not None and any(y is lam for y in walk(x["init"])):
+                    decl = x
+    if decl is None:
+        return None
+    out = []
+    for c in f.calls():
+        if c["callee"]["name"] == "operator()" and "obj" in c:
+            o = strip(f.obj(c))
+            if o["k"] == "DeclRefExpr" and o["decl"]["id"] == decl["id"] and f.enclosing(c, ("LambdaExpr",)) is not lam:
+                out.append(c)
+    return out
+
+
+def inline_render(fb, f, n, sub=None, depth=2):
+    """render(n) with calls of single-return helpers of the library replaced by their returned expression (parameters
+    replaced by the argument texts); used to compare what a statement computes after 'extract helper' refactorings"""
+    import re as _re
+    n0 = strip(n)
+    if depth > 0 and is_call(n0) and n0["callee"].get("inrepo") and n0["callee"].get("via") not in ("operator", "ctor"):
+        ts = [t for t in fb.targets(n0, static_type_only=True) if t.body is not None]
+        if len(ts) == 1:
+            t = ts[0]
+            stmts = [x for x in kids(t.body)]
+            if len(stmts) == 1 and stmts[0]["k"] == "ReturnStmt" and kids(stmts[0]):
+                text = inline_render(fb, t, kids(stmts[0])[0], None, depth - 1)
+                args = f.args(n0)
+                for i, p_ in enumerate(t.params):
+                    if i < len(args) and p_.get("name"):
+                        text = _re.sub(r"\\b%s\\b" % _re.escape(p_["name"]), inline_render(fb, f, args[i], sub, depth - 1).replace("\\", "\\\\"), text)
+                return text
+    return render(n0, sub)
+
+
+def rangefor_vars(f):
+    """loop variable of every range-for of f: declaration id -> the expression ranged over"""
+    out = {}
+    for rf in f.all_nodes():
+        if rf["k"] == "CXXForRangeStmt" and "rangeinit" in rf and "loopvar" in rf:
+            ri = f.nodes.get(rf["rangeinit"]) if isinstance(rf["rangeinit"], int) else rf["rangeinit"]
+            lv = f.nodes.get(rf["loopvar"]) if isinstance(rf["loopvar"], int) else rf["loopvar"]
+            if ri is None or lv is None:
+                continue
+            for d in (lv.get("decls") or [lv]):
+                if "id" in d:
+                    out[d["id"]] = ri
+    return out
